@@ -96,7 +96,7 @@ func (pr *printer) decl(d Decl) {
 	case *FuncDef:
 		pr.funcDef(d)
 	case *VarDef:
-		pr.emit("", "let "+d.Name+" = "+pr.inline(d.E, 0), "topvar")
+		pr.exprLines(d.E, "", "let "+d.Name+" = ", "topvar")
 	case *PkgInfo:
 		pr.emit("", "package_info "+d.Pkg+" =", "pkginfo")
 		in := pr.lay.Indent("pkginfo")
